@@ -10,7 +10,7 @@
 //!        GretaExecutor: register_type / register_query, process per event, flush
 //!        -> {"steps":[[[query,count]..] per event], "flush":[[query,count]..]}
 //!   {"kind":"engine","queries":Q,"stream":S}
-//!        Engine with one `.trend_aggregate(cnt: count_trends())` stream per query (stream Qi = T0 as e0 -> [all] T1 as e1 ..)
+//!        Engine with one `.trend_aggregate(cnt: count_trends())` stream per query (stream Qi = [all] T0 as e0 -> [all] T1 as e1 ..; `all` where the query has a Kleene step)
 //!        -> {"steps":[[[stream,query_id,cnt,is_final]..] per event]} | {"error":..}
 use serde_json::{json, Value as J};
 use smallvec::SmallVec;
@@ -118,7 +118,7 @@ fn engine(req: &J) -> J {
     let qs = queries(req);
     let mut program = String::new();
     for (qi, q) in qs.iter().enumerate() {
-        program.push_str(&format!("stream Q{} = {} as e0\n", qi, q.types[0]));
+        program.push_str(&format!("stream Q{} = {}{} as e0\n", qi, if q.kleene.contains(&0) { "all " } else { "" }, q.types[0]));
         for (k, t) in q.types.iter().enumerate().skip(1) {
             program.push_str(&format!("    -> {}{} as e{}\n", if q.kleene.contains(&k) { "all " } else { "" }, t, k));
         }
